@@ -255,3 +255,113 @@ Qed.
 
 Lemma eps_value : eps <= 10000000000000001 # 10000000000000000000000000000 /\ 0 < eps.
 Proof. split; vm_compute; congruence. Qed.
+
+(* ---------- streams: molar flows, mass view ---------- *)
+Lemma vmul_length a b : length a = length b -> length (vmul a b) = length a.
+Proof. apply map2_length. Qed.
+
+Lemma nthq_map2_div a b i : length a = length b ->
+  nthq (map2 Qdiv a b) i == nthq a i / nthq b i.
+Proof.
+  revert b i; induction a as [|x a IH]; intros [|y b] i H; simpl in *; try discriminate.
+  - rewrite nthq_nil. unfold Qdiv. lra.
+  - destruct i; unfold nthq in *; simpl; [lra|]. apply IH. lia.
+Qed.
+
+Lemma vdot_of_mass : forall a v w, vdot a (map2 Qdiv v w) == vdot (map2 Qdiv a w) v.
+Proof.
+  induction a as [|x a IH]; intros v w.
+  - rewrite vdot_nil_l. simpl. rewrite vdot_nil_l. lra.
+  - destruct v as [|y v]; [simpl; rewrite !vdot_nil_r; lra|].
+    destruct w as [|z w]; [simpl; rewrite vdot_nil_r, vdot_nil_l; lra|].
+    simpl map2. rewrite !vdot_cons, IH. unfold Qdiv. ring.
+Qed.
+
+Lemma vdot_div_mass : forall a mol w, length w = length mol -> Forall (fun x => ~ x == 0) w ->
+  vdot (map2 Qdiv a w) (vmul mol w) == vdot a mol.
+Proof.
+  induction a as [|x a IH]; intros mol w L NZ.
+  - simpl. rewrite !vdot_nil_l. lra.
+  - destruct mol as [|y mol], w as [|z w]; simpl in L; try discriminate.
+    + simpl. rewrite !vdot_nil_r. lra.
+    + inversion NZ as [|? ? Nz NZ']; subst. unfold vmul in *. simpl map2. rewrite !vdot_cons.
+      rewrite IH by (auto; lia). field. exact Nz.
+Qed.
+
+Lemma forall_pos_nthq w : Forall (fun x => 0 < x) w -> forall i, 0 <= nthq w i.
+Proof.
+  induction 1 as [|x w Hx Hw IH]; intros i.
+  - rewrite nthq_nil. lra.
+  - destruct i; unfold nthq in *; simpl; [lra|apply IH].
+Qed.
+
+Lemma forall_pos_nz w : Forall (fun x => 0 < x) w -> Forall (fun x => ~ x == 0) w.
+Proof. apply Forall_impl. intros x H. lra. Qed.
+
+Definition weights (o : robj) (w a : vec) : vec := if obasis o then map2 Qdiv a w else a.
+Definition buffer (o : robj) (w mol : vec) : vec := if obasis o then to_mass w mol else mol.
+Definition bounded (amax : Q) (a : vec) : Prop := Forall (fun x => - amax <= x /\ x <= amax) a.
+
+Lemma call_stream_ok w o mol mol' : call_stream w o mol = (None, mol') ->
+  process o (buffer o w mol) = (None, clampv (fst (react_obj o (buffer o w mol)))) /\
+  mol' = (if obasis o then of_mass w (clampv (fst (react_obj o (buffer o w mol))))
+          else clampv (fst (react_obj o (buffer o w mol)))).
+Proof.
+  unfold call_stream, buffer, via_mass. destruct (obasis o).
+  - destruct (process o (to_mass w mol)) as [[e|] v] eqn:P; [discriminate|].
+    intros H; inversion H; subst. destruct (process_ok _ _ _ P) as (_ & _ & ->). auto.
+  - intros P. destruct (process_ok _ _ _ P) as (_ & _ & ->). auto.
+Qed.
+
+Lemma stream_conserved_lemma w o mol mol' a :
+  length w = length mol -> Forall (fun x => ~ x == 0) w ->
+  Forall (wf (length mol)) (obj_members o) ->
+  Forall (balanced (weights o w a)) (obj_members o) ->
+  call_stream w o mol = (None, mol') ->
+  (nonneg (fst (react_obj o (buffer o w mol))) -> vdot a mol' == vdot a mol) /\
+  (forall amax, 0 <= amax -> bounded amax (weights o w a) ->
+     - (amax * eps) <= vdot a mol' - vdot a mol /\ vdot a mol' - vdot a mol <= amax * eps).
+Proof.
+  intros L NZ W B C. destruct (call_stream_ok _ _ _ _ C) as (P & E).
+  destruct (process_ok _ _ _ P) as (_ & NS & _).
+  assert (LB : length (buffer o w mol) = length mol).
+  { unfold buffer, to_mass. destruct (obasis o); auto. apply vmul_length. auto. }
+  assert (W' : Forall (wf (length (buffer o w mol))) (obj_members o)) by (rewrite LB; exact W).
+  destruct (react_obj_conserves o (buffer o w mol) (weights o w a) W' B) as (Lv & D).
+  set (v := fst (react_obj o (buffer o w mol))) in *.
+  assert (Base : vdot (weights o w a) (buffer o w mol) == vdot a mol).
+  { unfold weights, buffer, to_mass. destruct (obasis o); [|lra]. apply vdot_div_mass; auto. }
+  assert (Res : vdot a mol' == vdot (weights o w a) (clampv v)).
+  { rewrite E. unfold weights, of_mass. destruct (obasis o); [|lra]. apply vdot_of_mass. }
+  split.
+  - intros Nn. rewrite Res, (clampv_id v Nn), D, Base. lra.
+  - intros amax Ha Bd. destruct (clampv_dot_bound amax Ha (weights o w a) v Bd) as (B1 & B2).
+    assert (H := neg_sum_nonpos v). rewrite Res. rewrite <- Base, <- D. split; nra.
+Qed.
+
+Lemma nonneg_lemma w o mol mol' : length w = length mol -> Forall (fun x => 0 < x) w ->
+  Forall (wf (length mol)) (obj_members o) ->
+  call_stream w o mol = (None, mol') -> nonneg mol'.
+Proof.
+  intros L Pw W C. destruct (call_stream_ok _ _ _ _ C) as (_ & E). rewrite E.
+  destruct (obasis o) eqn:Ob; [|apply clampv_nonneg].
+  intros i. unfold of_mass. rewrite nthq_map2_div.
+  - assert (H1 := clampv_nonneg (fst (react_obj o (buffer o w mol))) i).
+    assert (H2 := forall_pos_nthq w Pw i).
+    unfold Qdiv. apply Qmult_le_0_compat; auto. apply Qinv_le_0_compat; auto.
+  - rewrite clampv_length.
+    assert (LB : length (buffer o w mol) = length mol).
+    { unfold buffer, to_mass. rewrite Ob. apply vmul_length. auto. }
+    assert (W' : Forall (wf (length (buffer o w mol))) (obj_members o)) by (rewrite LB; exact W).
+    destruct (react_obj_conserves o (buffer o w mol) [] W') as (Lv & _).
+    { apply Forall_forall. intros r _. unfold balanced. rewrite vdot_nil_l. lra. }
+    lia.
+Qed.
+
+(* the total flow (mass flow on a weight basis) grows by what the clamp removed, at most eps *)
+Lemma clamp_total_lemma o v v' : process o v = (None, v') ->
+  0 <= qsum v' - qsum (fst (react_obj o v)) /\ qsum v' - qsum (fst (react_obj o v)) <= eps.
+Proof.
+  intros P. destruct (process_ok _ _ _ P) as (_ & NS & ->). rewrite clampv_sum.
+  assert (H := neg_sum_nonpos (fst (react_obj o v))). split; lra.
+Qed.
